@@ -27,7 +27,7 @@ def split_top(s):
     return items
 
 
-def rewrite(text):
+def rewrite(text, keep=()):
     # use std::sync::{...}; (possibly nested, multi-line) and use std::sync::X...;
     def repl(m):
         body = m.group(2).strip()
@@ -35,7 +35,7 @@ def rewrite(text):
             items = split_top(body[1:-1])
         else:
             items = [body]
-        sched = [i for i in items if re.match(r"[A-Za-z_]+", i).group(0) in SCHED]
+        sched = [i for i in items if re.match(r"[A-Za-z_]+", i).group(0) in SCHED and re.match(r"[A-Za-z_]+", i).group(0) not in keep]
         rest = [i for i in items if i not in sched]
         out = ""
         if rest:
@@ -46,6 +46,8 @@ def rewrite(text):
     text = re.sub(r"((?:pub(?:\([a-z]+\))?\s+)?)use\s+(?:::)?std::sync::((?:\{(?:[^{}]|\{[^{}]*\})*\})|[^;{]+);", repl, text)
     # fully qualified paths
     for it in SCHED:
+        if it in keep:
+            continue
         text = re.sub(r"(?<![A-Za-z0-9_:])(?:::)?std::sync::%s\b" % it, "vh::vsched::sync::%s" % it, text)
     return text
 
@@ -66,7 +68,9 @@ def main():
             continue
         t = open(p).read()
         if f.endswith(".rs") and f not in ("verif.rs", "test.rs"):
-            t = rewrite(t)
+            # lib.rs: the lock around the client `Connection` is part of the public API (generated client code names
+            # std's RwLock); it stays std's - C07 explores it through the ClientWantLock probe
+            t = rewrite(t, keep=("RwLock", "RwLockReadGuard", "RwLockWriteGuard") if f == "lib.rs" else ())
         put(os.path.join(DST, "src", f), t)
         keep.add(f)
     for f in os.listdir(os.path.join(DST, "src")):
